@@ -4,4 +4,4 @@ From V.c18 Require Import C18Model.
 Require Import ExtrOcamlBasic.
 Separate Extraction
   asc adts encode_asc decode_asc canonical asc_roundtrip_ok
-  new_adts encode_adts decode_adts adts_canonical no_sync_in adts_roundtrip_ok.
+  new_adts adts_frequency encode_adts decode_adts adts_canonical no_sync_in adts_roundtrip_ok.
